@@ -1,13 +1,14 @@
 CONSTANTS
   HashMode = "real"
   Bug = "none"
-  Sweeps = {"pairs", "near", "deep", "hier", "xtwin", "xnear", "xdeep", "self", "selfn"}
+  Sweeps = {"pairs", "near", "deep", "hier", "xtwin", "xnear", "xdeep", "self", "selfn", "forms"}
   PairDepth = 2
   NearDepth = 3
   DeepDepth = 2
   HierDepth = 3
   XDepth = 2
   SelfDepth = 2
+  FormDepth = 3
   Wide = TRUE
   EmitCases = TRUE
 INIT Init
